@@ -718,14 +718,14 @@ pub fn run(ctx: &Ctx) -> i32 {
     replay_known(ctx, &stats, &mut report, &replay);
     replay_regressions(ctx, &stats, &mut report, &replay);
     let cl = classes(ctx);
-    let cases = ctx.tier.pick(96, 1500);
+    let cases = ctx.tier.pick(176, 1500);
     if let Some(f) = explore(ctx, "crash-histories", || case_strategy(ctx.tier, cl, 3), Explore { cases, max_shrink_iters: ctx.tier.pick(80, 400), lanes: ctx.lanes }, &stats, run_case) {
         report.violations.push(f);
     }
     // second exploration: idle kills only, any number of recoveries with stores in between
     if report.violations.is_empty() {
         let cl2 = Classes { idle_only: true, ..cl };
-        let cases2 = ctx.tier.pick(72, 1200);
+        let cases2 = ctx.tier.pick(104, 1200);
         if let Some(f) = explore(ctx, "idle-crash-histories", || case_strategy(ctx.tier, cl2, 3), Explore { cases: cases2, max_shrink_iters: ctx.tier.pick(80, 400), lanes: ctx.lanes }, &stats, run_case) {
             report.violations.push(f);
         }
